@@ -1504,3 +1504,33 @@ pub fn count_doc(kind: &str, n: usize) -> String {
     }
     s
 }
+
+/// Every split of a core-schema tag URI between a %TAG prefix and the tag suffix (also the
+/// verbatim and the `!!` spelling), on every kind of node text: the loaders decide by tag how a
+/// scalar is resolved, whatever spelling delivered the tag.
+pub const SPLIT_TYPES: [&str; 11] = ["int", "float", "bool", "null", "str", "map", "seq", "binary", "in", "intx", ""];
+pub const SPLIT_VALUES: [&str; 7] = ["12", "~", "\"12\"", "'x'", "|\n  12", "[1]", "0x1F"];
+const CORE: &str = "tag:yaml.org,2002:";
+pub fn tag_split_count() -> u64 {
+    SPLIT_TYPES.iter().map(|t| (CORE.len() + t.len() + 1 + 2) as u64).sum::<u64>() * SPLIT_VALUES.len() as u64
+}
+pub fn nth_tag_split(i: u64) -> String {
+    let v = SPLIT_VALUES[(i % SPLIT_VALUES.len() as u64) as usize];
+    let mut k = i / SPLIT_VALUES.len() as u64;
+    for t in SPLIT_TYPES {
+        let uri = format!("{CORE}{t}");
+        let n = (uri.len() + 1 + 2) as u64;
+        if k < n {
+            let k = k as usize;
+            return if k <= uri.len() {
+                format!("%TAG !e! {}\n--- !e!{} {v}\n", &uri[..k], &uri[k..])
+            } else if k == uri.len() + 1 {
+                format!("--- !<{uri}> {v}\n")
+            } else {
+                format!("--- !!{t} {v}\n")
+            };
+        }
+        k -= n;
+    }
+    String::new()
+}
